@@ -50,14 +50,45 @@ fn bb_strategy() -> impl Strategy<Value = BbCase> {
 			5 => (0..n).prop_map(Step::Renew),
 			1 => (0..n).prop_map(Step::Forget),
 		];
-		proptest::collection::vec(step, 1..=5).prop_map(move |mut steps| {
+		let k0 = key0.clone();
+		let free = proptest::collection::vec(step.clone(), 1..=5).prop_map(move |mut steps| {
 			steps.insert(0, Step::Renew(0));
 			// a history that ends with an edit is followed by a renewal so that the edit is observed
 			if !matches!(steps.last(), Some(Step::Renew(_))) {
 				steps.push(Step::Renew(0));
 			}
-			BbCase { n_endpoints: n, key0: key0.clone(), steps }
-		})
+			BbCase { n_endpoints: n, key0: k0.clone(), steps }
+		});
+		// scenario shape: every endpoint registered, then 1..2 edits (and possibly a forgotten account),
+		// then every endpoint renewed once in a random order
+		let k1 = key0.clone();
+		let edit = prop_oneof![2 => contacts().prop_map(Step::EditContacts), 3 => fast_key().prop_map(Step::ChangeKey), 1 => (contacts(), fast_key()).prop_map(|(c, k)| Step::ChangeBoth(c, k)), 1 => Just(Step::ToggleBinding)];
+		let shaped = (proptest::collection::vec(edit, 1..=2), proptest::option::weighted(0.5, 0..n), any::<u64>(), any::<bool>()).prop_map(move |(edits, forget, perm, restart)| {
+			let mut steps: Vec<Step> = (0..n).map(Step::Renew).collect();
+			steps.extend(edits);
+			if restart {
+				steps.push(Step::Restart);
+			}
+			if let Some(e) = forget {
+				steps.push(Step::Forget(e));
+			}
+			let mut order: Vec<usize> = (0..n).collect();
+			let mut x = perm | 1;
+			for i in (1..order.len()).rev() {
+				x ^= x << 13;
+				x ^= x >> 7;
+				x ^= x << 17;
+				order.swap(i, (x % (i as u64 + 1)) as usize);
+			}
+			// the forgotten endpoint first in half of the cases (its re-registration precedes the others' roll-over)
+			if let (Some(e), true) = (forget, perm % 2 == 0) {
+				order.retain(|x| *x != e);
+				order.insert(0, e);
+			}
+			steps.extend(order.into_iter().map(Step::Renew));
+			BbCase { n_endpoints: n, key0: k1.clone(), steps }
+		});
+		prop_oneof![1 => free, 1 => shaped]
 	})
 }
 
@@ -544,7 +575,7 @@ fn exec_start(c: &StartCase) -> Outcome {
 }
 
 pub fn run(ctx: &Ctx, rep: &mut Report) {
-	rep.rule = "bb: histories of up to 7 steps over one account on 1..3 endpoints (one mock CA each): edit contacts | change key type | change both | add/remove external binding | plain restart | renew on endpoint i (its certificate file is removed, the others stay valid) | CA forgets the account; an account model in the harness predicts, per endpoint, the number of newAccount / key-change / contact-update requests of each renewal, that idle endpoints receive nothing, and that afterwards the CA's record (contacts, key type) equals the configuration; the strict CA verifies that roll-overs are authorised by the key it holds. pr: account shapes (7 key types, 0..3 superseded keys, 0..3 endpoints with URLs and fingerprints, binding, Unicode names) saved by one process and loaded by a fresh one: dumps equal field by field (keys by SPKI and private DER); for a share of the shapes EVERY truncation point of the file must be refused and leave the file untouched. start: the real daemon started on a truncated account file must exit non-zero with a message, register nothing and not touch the file. Non-trivial (bb) = >= 2 edits with a key roll-over, or >= 2 endpoints synchronised at different steps; (pr) superseded keys or >= 2 endpoints.".into();
+	rep.rule = "bb: histories of up to 9 steps (free-form, or scenario-shaped: all endpoints registered, 1..2 edits, optional restart and forgotten account, then every endpoint renewed in a random order) over one account on 1..3 endpoints (one mock CA each): edit contacts | change key type | change both | add/remove external binding | plain restart | renew on endpoint i (its certificate file is removed, the others stay valid) | CA forgets the account; an account model in the harness predicts, per endpoint, the number of newAccount / key-change / contact-update requests of each renewal, that idle endpoints receive nothing, and that afterwards the CA's record (contacts, key type) equals the configuration; the strict CA verifies that roll-overs are authorised by the key it holds. pr: account shapes (7 key types, 0..3 superseded keys, 0..3 endpoints with URLs and fingerprints, binding, Unicode names) saved by one process and loaded by a fresh one: dumps equal field by field (keys by SPKI and private DER); for a share of the shapes EVERY truncation point of the file must be refused and leave the file untouched. start: the real daemon started on a truncated account file must exit non-zero with a message, register nothing and not touch the file. Non-trivial (bb) = >= 2 edits with a key roll-over, or >= 2 endpoints synchronised at different steps; (pr) superseded keys or >= 2 endpoints.".into();
 	run_replays::<BbCase>(ctx, rep, "bb", &exec_bb);
 	run_replays::<Shape>(ctx, rep, "shape", &exec_shape);
 	run_replays::<StartCase>(ctx, rep, "start", &exec_start);
